@@ -7,6 +7,7 @@ import (
 	"fmt"
 	"net"
 	"reflect"
+	"sort"
 	"time"
 
 	"github.com/hprose/hprose-golang/v3/rpc/core"
@@ -116,7 +117,20 @@ func scenC09(r *Run) {
 	}
 }
 
-func c09Check(r *Run, kind, mode string, calls []*c09call) {
+func c09Check(r *Run, kind, mode string, calls []*c09call, seen map[int]int) {
+	if seen != nil {
+		var nonces []int
+		for n := range seen {
+			nonces = append(nonces, n)
+		}
+		sort.Ints(nonces)
+		for _, n := range nonces {
+			if k := seen[n]; k != 1 {
+				r.Fail("C09:executed-not-once:"+mode+":"+kind, "the function ran %d times for nonce %d", k, n)
+				return
+			}
+		}
+	}
 	for _, c := range calls {
 		if !c.done {
 			continue
@@ -125,6 +139,9 @@ func c09Check(r *Run, kind, mode string, calls []*c09call) {
 			cls := "C09:call-failed:" + mode + ":" + kind
 			if mode == "reverse" {
 				cls += ":" + c.err.Error()
+				if seen[c.nonce] == 0 {
+					cls += ":never-delivered"
+				}
 			}
 			r.Fail(cls, "call %d (nonce %d) failed with %v although the network is benign and every request was answered", c.id, c.nonce, c.err)
 			return
@@ -142,7 +159,7 @@ func c09Check(r *Run, kind, mode string, calls []*c09call) {
 	}
 }
 
-func c09Drive(r *Run, sim *verifsim.Sim, kind, mode string, calls []*c09call, extra func() string) bool {
+func c09Drive(r *Run, sim *verifsim.Sim, kind, mode string, calls []*c09call, extra func() string, seen map[int]int) bool {
 	st := sim.Drive(func() bool {
 		for _, c := range calls {
 			if !c.done {
@@ -154,7 +171,7 @@ func c09Drive(r *Run, sim *verifsim.Sim, kind, mode string, calls []*c09call, ex
 	if sim.Failure() != nil {
 		return false
 	}
-	c09Check(r, kind, mode, calls)
+	c09Check(r, kind, mode, calls, seen)
 	if sim.Failure() != nil {
 		return false
 	}
@@ -218,14 +235,8 @@ func c09Service(r *Run, sim *verifsim.Sim, kind string, pool bool, ncallers, per
 			}
 		})
 	}
-	if !c09Drive(r, sim, kind, mode, calls, nil) {
+	if !c09Drive(r, sim, kind, mode, calls, nil, g.seen) {
 		return
-	}
-	for n, k := range g.seen {
-		if k != 1 {
-			r.Fail("C09:executed-not-once:"+mode+":"+kind, "the service function ran %d times for nonce %d", k, n)
-			return
-		}
 	}
 	sim.Drive(func() bool { return false })
 	if _, p := fx.Pending(); p > 0 {
@@ -399,7 +410,7 @@ func c09Scripted(r *Run, sim *verifsim.Sim, kind string, ncallers, perCaller int
 		warm.res, warm.err = client.Invoke("hold", []interface{}{warm.nonce})
 		warm.done = true
 	})
-	if !c09Drive(r, sim, kind, mode, calls, nil) {
+	if !c09Drive(r, sim, kind, mode, calls, nil, nil) {
 		return
 	}
 	sim.Drive(func() bool { return false })
@@ -428,7 +439,7 @@ func c09Scripted(r *Run, sim *verifsim.Sim, kind string, ncallers, perCaller int
 			}
 		})
 	}
-	if !c09Drive(r, sim, kind, mode, calls, func() string { return fmt.Sprintf("requests seen by the peer: %d;", len(reqs)) }) {
+	if !c09Drive(r, sim, kind, mode, calls, func() string { return fmt.Sprintf("requests seen by the peer: %d;", len(reqs)) }, nil) {
 		return
 	}
 	// let remaining duplicates and strays be sent and delivered, then one more call must still work
@@ -442,7 +453,7 @@ func c09Scripted(r *Run, sim *verifsim.Sim, kind string, ncallers, perCaller int
 		last.res, last.err = client.Invoke("hold", []interface{}{last.nonce})
 		last.done = true
 	})
-	if !c09Drive(r, sim, kind, mode, calls, nil) {
+	if !c09Drive(r, sim, kind, mode, calls, nil, nil) {
 		return
 	}
 	sim.Drive(func() bool { return false })
@@ -502,14 +513,8 @@ func c09Reverse(r *Run, sim *verifsim.Sim, kind string, ncallers, perCaller int)
 			}
 		})
 	}
-	if !c09Drive(r, sim, kind, mode, calls, nil) {
+	if !c09Drive(r, sim, kind, mode, calls, nil, g.seen) {
 		return
-	}
-	for n, k := range g.seen {
-		if k != 1 {
-			r.Fail("C09:executed-not-once:"+mode+":"+kind, "the provider function ran %d times for nonce %d", k, n)
-			return
-		}
 	}
 	_ = websocket.VerifNetDial
 }
